@@ -8,10 +8,12 @@ CONSTANTS
   DcmRoutes <- AllDcmRoutes
   RotRoutes <- AllRotRoutes
   ConjRoutes <- AllConjRoutes
+  QuatMethods <- AllMethods
   MaxDepth = 1000000
 INVARIANT Faithful
 INVARIANT ProperRot
 INVARIANT RotateLaw
 INVARIANT PointLaws
+INVARIANT MethodSound
 \* depth is a pure step counter: hide it so that the group machine is finite
 VIEW ViewNoDepth
